@@ -282,6 +282,10 @@ def exec_backtest(bt, rows, unit, algo):
     """whole run: [scheduler, recorder]; returns (fired ns list, full pandas index)"""
     idx = make_pd_index(rows, unit)
     data = pd.DataFrame(100.0 + np.arange(len(idx)), index=idx, columns=["a"])
+    if len(idx) >= 2 and (int(pd.Timestamp(idx[0]).value // 10 ** 9) + len(idx)) % 3 == 0:
+        # a universe that lists on the second date (a table built with pct_change / reindexed to start early): the first row of the
+        # data is entirely NaN - it is still the first date of the run, not the synthetic row
+        data.iloc[0, 0] = np.nan
     rec = recorder_class(bt)()
     s = bt.Strategy("s", [algo, rec])
     t = bt.Backtest(s, data, progress_bar=False)
@@ -508,6 +512,12 @@ def run_period_backtest_case(ctx, bt, case, batch):
         ctx.violation("C12/%s:backtest:raised:%s" % (KINDS[kind], type(e).__name__), "Backtest over %s raised %r" % ([fmt_row(r) for r in rows], e), case)
         return
     frows = frows_of(fidx)
+    if frows[1:] != rows or frows[0] != (rows[0][0] - 1, rows[0][1]):
+        # the schedulers' "first date" is the first date of the DATA: the run's index is the synthetic row followed by every data date
+        ctx.violation("C12/Backtest:index-is-not-synthetic-row-plus-data-dates", "data dates %s (first row all-NaN: %s) but the run's index is %s"
+                      % ([fmt_row(r) for r in rows][:4], len(rows) >= 2 and (int(pd.Timestamp(make_pd_index(rows, case["unit"])[0]).value // 10 ** 9) + len(rows)) % 3 == 0,
+                         [fmt_row(r) for r in frows][:5]), case)
+        return
     nss = [pd.Timestamp(t).value for t in fidx]
     if len(set(fired)) != len(fired) or any(f not in nss[1:] for f in fired):
         ctx.violation("C12/%s:backtest:fired-on-foreign-or-repeated-date" % KINDS[kind], "fired %s" % fired, case)
